@@ -26,7 +26,7 @@ func init() {
 		RequiredCounters: []string{"canonical_rejections", "canonical_acceptances", "buffer_snapshots"},
 		Assumptions:      []string{"math/big is the oracle for integer values of byte strings"},
 		Plan: func(tier string) []Child {
-			return shards(pick(tier, 4, 12), Child{Flavour: "plain", NCPU: 1})
+			return shardsVar(pick(tier, 4, 12), Child{Flavour: "plain", NCPU: 1})
 		},
 		Run: runC16,
 	})
